@@ -82,10 +82,16 @@ def unit_bashf(ctx):
             st, steps = rb(rng, 192), 4
         cases.append((kind, st, steps))
     deep = lib.bashF_deep()
-    for kind, st, steps in cases:
-        if not ctx.case(["bashF", kind, st, steps], "bashF:" + kind):
+    for ci, (kind, st, steps) in enumerate(cases):
+        # bash.h puts no alignment requirement on block: every case at one of the offsets 0, 1, 4, 8, 12 from a malloc'ed address
+        # (the vector variants load it with unaligned instructions)
+        off = (0, 1, 4, 8, 12)[ci % 5]
+        if not ctx.case(["bashF", kind, st, steps, off], "bashF:" + kind):
             continue
-        block, stack = lib.mk(st), lib.alloc(deep)
+        base, stack = lib.alloc(192 + off), lib.alloc(deep)
+        block = base + off
+        lib.wr(block, st)
+        ctx.classes["bashF:block-offset-%d" % off] += 1
         exp = st
         for i in range(steps):
             lib.bashF(block, stack)
